@@ -30,6 +30,9 @@ def run(tier, seed, escalate=False):
     for kit in KITS.values():
         for _ in range(n):
             cases.append(make_case(kit, rng))
+        if hasattr(kit, "systematic"):         # every combination of the format's discrete header features, once
+            for cfg in kit.systematic(rng):
+                cases.append(make_case(kit, rng, cfg))
     work = tempfile.mkdtemp(prefix="verif_c06_")
     mism, fails, dist = [], [], {}
     try:
